@@ -73,7 +73,8 @@ class C16(Prop):
             "(with concurrent siblings the organically failing set depends on I/O timing: C19) and, when a fail-stop fault is present, no "
             "faults on jobs with concurrent siblings; limit = max count + 1 + slack, "
             "slack in {0,1,2,20}; seeded permuting event loop on half the cases. Non-trivial = at least one fault. Distinct = "
-            "distinct canonical JSON.")
+            "distinct canonical JSON. inject: 0..8 tokens of one port with tags around 9/10/11/99/100 at one or two depths, random "
+            "availability, mapper order shuffled, through the real _inject_tokens with a stub mapper.")
     TRUSTED = ("model: Recovery/Model.v (job DAG, store, execution/loss events, canonical rollback) is hand-written",
                "harness/props/_recov.py + _recov_shapes.py: workflow builders, deterministic job functions (mirrored by "
                "Recovery/Corr.v:apply_op), failure injection, recording shims",
@@ -159,6 +160,19 @@ class C16(Prop):
                           "faults": [["/b0", f"0.{e}", "execute", "failstop", 1]],
                           "last": {"jobs": [f"/b0/0.{e}"], "prefix": "/b0/", "need": w - 1},
                           "sched": rng.randrange(1 << 30) if rng.random() < 0.5 else None})
+        # function level: the real _inject_tokens on one port with a stub mapper -- order of the injected tokens
+        for _ in range({"quick": 60, "thorough": 600, "extended": 200}[tier]):
+            base = rng.choice(["0", "0", "0.1", "0.10"])
+            n = rng.randrange(0, 9)
+            tags = []
+            for _k in range(n):
+                r = rng.random()
+                comp = rng.choice([0, 1, 2, 8, 9, 10, 11, 12, 19, 20, 99, 100, rng.randrange(0, 13)])
+                tags.append(base if r < 0.1 else f"{base}.{comp}" if r < 0.85 else f"{base}.{comp}.{rng.randrange(0, 12)}")
+            if tags and rng.random() < 0.85:   # mostly distinct tags (a duplicate among available tokens raises)
+                tags = list(dict.fromkeys(tags))
+            rng.shuffle(tags)
+            cases.append({"f": "inject", "toks": [[i + 1, t, rng.random() < 0.75] for i, t in enumerate(tags)]})
         return cases
 
     # ---------------------------------------------------------------- implementation
@@ -166,7 +180,36 @@ class C16(Prop):
         from harness.props import _recov
         self.R = _recov
 
+    def _run_inject(self, c):
+        import asyncio
+        from types import SimpleNamespace
+
+        from streamflow.core.exception import FailureHandlingException
+        from streamflow.core.workflow import Token
+        from streamflow.recovery.failure_manager import _inject_tokens
+
+        class Rec:   # a plain port: only the order of put() matters here (boundary rules concern InterWorkflowPorts)
+            def __init__(self):
+                self.name, self.got = "p", []
+
+            def put(self, t):
+                self.got.append(t)
+
+        port = Rec()
+        toks = {i: Token(value=i, tag=t) for i, t, _a in c["toks"]}
+        mapper = SimpleNamespace(port_tokens={"p": [i for i, _t, _a in c["toks"]]}, token_instances=toks,
+                                 token_availability={i: a for i, _t, a in c["toks"]})
+        step = SimpleNamespace(output_ports={})
+        try:
+            asyncio.run(_inject_tokens(failed_job=None, failed_step=step, mapper=mapper,
+                                       workflow=SimpleNamespace(ports={"p": port})))
+        except FailureHandlingException:
+            return {"err": "FailureHandlingException"}
+        return {"order": [t.value for t in port.got]}
+
     def impl_run(self, c):
+        if c["f"] == "inject":
+            return self._run_inject(c)
         return self.R.run_engine(c)
 
     # ---------------------------------------------------------------- oracle (from the property text)
@@ -191,6 +234,19 @@ class C16(Prop):
             return ("crash", f"harness/implementation crashed: {o.get('exc')} {str(o.get('stderr'))[-300:]}")
         if "hang" in o:
             return ("hang", "the run neither completed nor raised within the time limit")
+        if c["f"] == "inject":
+            # a recovered run can only reproduce the failure-free outputs if the steps of the recovery workflow see the
+            # regenerated inputs in the order of a failure-free run: numeric tag order, available tokens only, each once
+            av = [(i, t) for i, t, a in c["toks"] if a]
+            dup = len({t for _i, t in av}) != len(av)
+            if "err" in o:
+                return None if dup else ("inject-raises", f"_inject_tokens raised for distinct tags {av}")
+            want = [i for i, t in sorted(av, key=lambda it: (it[1].count("."), [int(x) for x in it[1].split(".")]))]
+            if not dup and o["order"] != want:
+                return ("inject-order", f"tokens {av} injected as {o['order']}, numeric tag order is {want}")
+            if dup and sorted(o["order"]) == sorted(i for i, _t in av):
+                return ("inject-duplicate-tag", f"two available tokens with the same tag were both injected: {av}")
+            return None
         # every job fails fewer times than the limit (by construction of the case): the run must complete ...
         tot = {}
         for f in c["faults"]:
@@ -217,6 +273,12 @@ class C16(Prop):
     def coq_case(self, c, o):
         if "crash" in o or "hang" in o:
             return None
+        if c["f"] == "inject":
+            from harness.lib.framework import coq_N
+            l = coq_list([f"pt {coq_N(i)} {coq_list([coq_N(int(x)) for x in t.split('.')])} {coq_bool(a)}"
+                          for i, t, a in c["toks"]])
+            r = coq_opt(o.get("order"), lambda ids: coq_list([coq_N(i) for i in ids]))
+            return f"CInject {l} {r}"
         v = self.oracle(c, o)
         if v and v[0] == "outputs-differ":
             # the engine completed with a different output (e.g. a gather forced with an element missing): the job-DAG
@@ -242,6 +304,8 @@ class C16(Prop):
         return f"CRun {dag} {coq_list(evs)} {coq_nat(out)} {coq_bool(completed)} {coq_opt(obsv, lambda x: x)}"
 
     def nontrivial(self, c):
+        if c["f"] == "inject":
+            return sum(1 for t in c["toks"] if t[2]) >= 2
         return bool(c["faults"])
 
     def signature(self, c, o, clause):
@@ -252,6 +316,8 @@ class C16(Prop):
         limit allows (1 + demand > limit: the hypothesis of C16_completes_partial fails -- a refusal is then the boundary
         of finding 1); `within` iff the plan respects the budget, so a run that still does not complete is NOT explained
         by the budget."""
+        if c["f"] == "inject":
+            return f"inject/{clause}"
         kinds = {f[3] for f in c["faults"]}
         loss = "failstop" if "failstop" in kinds else "partial" if "partial" in kinds else "soft" if kinds else "none"
         if "failstop" in kinds and "partial" in kinds:
@@ -278,6 +344,10 @@ class C16(Prop):
         return f"{clause}/{shape}/{loss}/{budget}"
 
     def shrink(self, c):
+        if c["f"] == "inject":
+            for i in range(len(c["toks"])):
+                yield {**c, "toks": c["toks"][:i] + c["toks"][i + 1:]}
+            return
         fs = c["faults"]
         for i in range(len(fs)):
             if len(fs) > 1:
